@@ -7,13 +7,13 @@
 From Irismod Require Import Genesis.Store.
 (** No free-standing invariant:
 
-    For record, coinswap, random and nft the reachability invariant [invb] is DERIVED from the other groups'
+    For record, coinswap, random, nft, mt, htlc and token the reachability invariant [invb] is DERIVED from the other groups'
     message-level models ([Genesis/Link<Mod>.v]): an abstraction [abs] maps a state of that model to the
     genesis-level state (renaming ids by an injective numbering, sorting the stores the way the KV store
     iterates), and [reachable_<mod>] proves [invb (abs (run h)) = true] for every history [h] from that
     model's proved invariants (plus small extra invariants proved over its step function).  The C12
     statements then quantify over histories. *)
-From Irismod Require Genesis.LinkRecord Genesis.LinkCoinswap Genesis.LinkRandom Genesis.LinkNft.
+From Irismod Require Genesis.LinkRecord Genesis.LinkCoinswap Genesis.LinkRandom Genesis.LinkNft Genesis.LinkMt Genesis.LinkHtlc Genesis.LinkToken.
 
 Module LinkRecordC12.
 Import Genesis.LinkRecord.
@@ -110,3 +110,154 @@ Proof. exact LinkNft.nft_history_roundtrip. Qed.
 Print Assumptions nft_history_roundtrip.
 End LinkNftC12.
 
+
+(** ** mt: [invb] derived from the message-level model of the nftmt group ([Mt/Model.v], [Mt/Proofs.v],
+    [Mt/Export.v]). [Reachable64 s] = [s] is the state after a history of fewer than 2^64 - 1 steps from the
+    empty state (the bound under which the uint64 sequences do not wrap). *)
+Module LinkMtC12.
+Import Genesis.LinkMt.
+
+Theorem reachable_mt : forall s : M.state, MP.Reachable64 s -> G.invb (abs s) = true.
+Proof. exact LinkMt.reachable_mt. Qed.
+Print Assumptions reachable_mt.
+
+Theorem mt_history_export_validates :
+  forall s : M.state, MP.Reachable64 s -> G.validate false (G.export (abs s)) = true.
+Proof. exact LinkMt.mt_history_export_validates. Qed.
+Print Assumptions mt_history_export_validates.
+
+Theorem mt_history_roundtrip :
+  forall s : M.state, MP.Reachable64 s -> G.import false (G.export (abs s)) = Some (GP.norm (abs s)).
+Proof. exact LinkMt.mt_history_roundtrip. Qed.
+Print Assumptions mt_history_roundtrip.
+
+Theorem mt_history_fixpoint_and_queries :
+  forall s : M.state, MP.Reachable64 s ->
+  exists s', G.import false (G.export (abs s)) = Some s' /\ G.export s' = G.export (abs s) /\ G.queries s' = G.queries (abs s).
+Proof. exact LinkMt.mt_history_fixpoint_and_queries. Qed.
+Print Assumptions mt_history_fixpoint_and_queries.
+End LinkMtC12.
+
+(** ** htlc: [invb] derived from the message-level model of the htlc group ([Htlc/Model.v], [Htlc/Proofs.v]:
+    [Inv], [Strict]) plus the small invariant [J] of [Genesis/LinkHtlc.v].  Histories: from a genesis with
+    parameters that Keeper.SetParams accepts and an empty escrow account, any operations WITHOUT parameter
+    changes ([wf_op]; a MsgUpdateParams can make the exported genesis un-importable — known finding, clause 7
+    of the check) whose transfers carry a timestamp ([ts_ok]).  [rk] numbers the contract ids (injective on the
+    ids of the state), [oth] gives the lengths of the other-chain address strings.  [abs] is the whole store,
+    [abs_o] the store without the closed contracts (which ExportGenesis drops, documented). *)
+Module LinkHtlcC12.
+Import Genesis.LinkHtlc.
+
+Theorem reachable_htlc :
+  forall (rk : M.cid -> Z) (hl : M.hlock -> Z) (rs : Z -> Z) (oth : M.cid -> Z * Z),
+  (forall id, fst (oth id) <= 128 /\ snd (oth id) <= 128) ->
+  forall P b t0 ops, M.params_valid P = true -> MP.escrow_empty b -> Forall MP.wf_op ops -> Forall ts_ok ops ->
+  inj_on rk (map fst (M.st_contracts (MP.reachable P b t0 ops))) ->
+  G.invb true (abs_o rk hl rs oth (MP.reachable P b t0 ops)) = true.
+Proof. exact LinkHtlc.reachable_htlc. Qed.
+Print Assumptions reachable_htlc.
+
+Theorem htlc_history_export_validates :
+  forall (rk : M.cid -> Z) (hl : M.hlock -> Z) (rs : Z -> Z) (oth : M.cid -> Z * Z),
+  (forall id, fst (oth id) <= 128 /\ snd (oth id) <= 128) ->
+  forall P b t0 ops, M.params_valid P = true -> MP.escrow_empty b -> Forall MP.wf_op ops -> Forall ts_ok ops ->
+  inj_on rk (map fst (M.st_contracts (MP.reachable P b t0 ops))) ->
+  G.validate true (G.export (abs rk hl rs oth (MP.reachable P b t0 ops))) = true.
+Proof. exact LinkHtlc.htlc_history_export_validates. Qed.
+Print Assumptions htlc_history_export_validates.
+
+(** import does not panic, and the new chain's state is the old one's without its closed contracts — the
+    expiration queue included (it is rebuilt from the open contracts and equals the old queue) *)
+Theorem htlc_history_import_is_open_part :
+  forall (rk : M.cid -> Z) (hl : M.hlock -> Z) (rs : Z -> Z) (oth : M.cid -> Z * Z),
+  (forall id, fst (oth id) <= 128 /\ snd (oth id) <= 128) ->
+  forall P b t0 ops, M.params_valid P = true -> MP.escrow_empty b -> Forall MP.wf_op ops -> Forall ts_ok ops ->
+  inj_on rk (map fst (M.st_contracts (MP.reachable P b t0 ops))) ->
+  G.import true (G.export (abs rk hl rs oth (MP.reachable P b t0 ops))) = Some (abs_o rk hl rs oth (MP.reachable P b t0 ops)).
+Proof. exact LinkHtlc.htlc_history_import_is_open_part. Qed.
+Print Assumptions htlc_history_import_is_open_part.
+
+Theorem htlc_history_fixpoint_and_queries :
+  forall (rk : M.cid -> Z) (hl : M.hlock -> Z) (rs : Z -> Z) (oth : M.cid -> Z * Z),
+  (forall id, fst (oth id) <= 128 /\ snd (oth id) <= 128) ->
+  forall P b t0 ops, M.params_valid P = true -> MP.escrow_empty b -> Forall MP.wf_op ops -> Forall ts_ok ops ->
+  inj_on rk (map fst (M.st_contracts (MP.reachable P b t0 ops))) ->
+  exists s', G.import true (G.export (abs rk hl rs oth (MP.reachable P b t0 ops))) = Some s'
+    /\ G.export s' = G.export (abs rk hl rs oth (MP.reachable P b t0 ops))
+    /\ G.queries s' = G.queries (abs rk hl rs oth (MP.reachable P b t0 ops))
+    /\ G.queue s' = G.queue_of (G.htlcs s').
+Proof. exact LinkHtlc.htlc_history_fixpoint_and_queries. Qed.
+Print Assumptions htlc_history_fixpoint_and_queries.
+
+(** after PrepForZeroHeightGenesis at the state's height the invariant holds again (and with it the four
+    statements of [Props/C12.v] for the prepared state); import of the prepared export does not panic *)
+Theorem htlc_history_prep :
+  forall (rk : M.cid -> Z) (hl : M.hlock -> Z) (rs : Z -> Z) (oth : M.cid -> Z * Z),
+  (forall id, fst (oth id) <= 128 /\ snd (oth id) <= 128) ->
+  forall P b t0 ops, M.params_valid P = true -> MP.escrow_empty b -> Forall MP.wf_op ops -> Forall ts_ok ops ->
+  let s := MP.reachable P b t0 ops in
+  inj_on rk (map fst (M.st_contracts s)) ->
+  (forall id c, In (id, c) (M.st_contracts s) -> M.c_exp c < G.two64) ->
+  G.invb true (G.prep (M.st_height s) (abs_o rk hl rs oth s)) = true
+  /\ G.import true (G.export (G.prep (M.st_height s) (abs_o rk hl rs oth s))) <> None.
+Proof. exact LinkHtlc.htlc_history_prep. Qed.
+Print Assumptions htlc_history_prep.
+
+(** KNOWN FINDING at the message level: with a parameter change in the history (the asset is deactivated under an
+    open incoming transfer; the model's SetParams accepts the set as Keeper.SetParams does) the export of the
+    abstraction validates and its import panics *)
+Theorem htlc_import_total_refuted_after_param_change :
+  let ops := [ M.Create (M.mkCreate 3 0 [(0, 200)] (8, 1700000000) 1700000000 50 true); M.SetParams M.GOV ex_P_inactive ] in
+  let s := MP.reachable ex_P ex_B (1700000000 * M.ns) ops in
+  M.params_valid ex_P_inactive = true /\ M.st_params s = ex_P_inactive
+  /\ length (G.g_htlcs (G.export (ex_abs s))) = 1%nat
+  /\ G.validate true (G.export (ex_abs s)) = true /\ G.import true (G.export (ex_abs s)) = None.
+Proof. exact LinkHtlc.htlc_history_param_change_refuted. Qed.
+Print Assumptions htlc_import_total_refuted_after_param_change.
+End LinkHtlcC12.
+
+(** ** token: [invb] derived from the message-level model of the token group ([Token/Model.v], [Token/Proofs.v]:
+    [IdInv]; [Token/Passes.v]: [WF]) plus the invariant [K] of [Genesis/LinkToken.v].  Histories: the harness
+    genesis (the native token, parameters that pass Params.Validate with the native symbol as fee denom), then
+    any C09 messages (issue, edit, mint, burn, ownership transfer, parameter update; no ERC20 messages, no
+    fee-token swap).  [rs] / [rm] number symbols / min units (injective on what the state holds), [ro] the
+    owners, [nlen] gives the length of an interned token name. *)
+Module LinkTokenC12.
+Import Genesis.LinkToken.
+
+Theorem reachable_token :
+  forall (rs rm : M.name -> Z) (ro : M.acct -> Z) (nlen : Z -> Z),
+  (forall n, 0 <= rm n) -> (forall a, 0 <= a -> 0 <= ro a) -> (forall nm, 0 <= nm -> 0 < nlen nm <= 32) ->
+  forall p balances ss reg (ms : list M.msg),
+  pars_good p -> M.p_fee_denom p = M.STAKE -> NoDup (keys balances) -> Forall MW.c09_msg ms ->
+  inj_on rs (map fst (M.tokens (M.run (M.genesis p balances ss reg) ms))) ->
+  inj_on rm (map fst (M.minunits (M.run (M.genesis p balances ss reg) ms))) ->
+  G.invb (abs rs rm ro nlen (M.run (M.genesis p balances ss reg) ms)) = true.
+Proof. exact LinkToken.reachable_token. Qed.
+Print Assumptions reachable_token.
+
+Theorem token_history_export_validates :
+  forall (rs rm : M.name -> Z) (ro : M.acct -> Z) (nlen : Z -> Z),
+  (forall n, 0 <= rm n) -> (forall a, 0 <= a -> 0 <= ro a) -> (forall nm, 0 <= nm -> 0 < nlen nm <= 32) ->
+  forall p balances ss reg (ms : list M.msg),
+  pars_good p -> M.p_fee_denom p = M.STAKE -> NoDup (keys balances) -> Forall MW.c09_msg ms ->
+  inj_on rs (map fst (M.tokens (M.run (M.genesis p balances ss reg) ms))) ->
+  inj_on rm (map fst (M.minunits (M.run (M.genesis p balances ss reg) ms))) ->
+  G.validate false (G.export (abs rs rm ro nlen (M.run (M.genesis p balances ss reg) ms))) = true.
+Proof. exact LinkToken.token_history_export_validates. Qed.
+Print Assumptions token_history_export_validates.
+
+(** import does not panic and gives back the state itself (so the second export is the first and every query
+    reads the same) *)
+Theorem token_history_roundtrip :
+  forall (rs rm : M.name -> Z) (ro : M.acct -> Z) (nlen : Z -> Z),
+  (forall n, 0 <= rm n) -> (forall a, 0 <= a -> 0 <= ro a) -> (forall nm, 0 <= nm -> 0 < nlen nm <= 32) ->
+  forall p balances ss reg (ms : list M.msg),
+  pars_good p -> M.p_fee_denom p = M.STAKE -> NoDup (keys balances) -> Forall MW.c09_msg ms ->
+  inj_on rs (map fst (M.tokens (M.run (M.genesis p balances ss reg) ms))) ->
+  inj_on rm (map fst (M.minunits (M.run (M.genesis p balances ss reg) ms))) ->
+  G.import false (G.export (abs rs rm ro nlen (M.run (M.genesis p balances ss reg) ms)))
+  = Some (abs rs rm ro nlen (M.run (M.genesis p balances ss reg) ms)).
+Proof. exact LinkToken.token_history_roundtrip. Qed.
+Print Assumptions token_history_roundtrip.
+End LinkTokenC12.
